@@ -94,6 +94,14 @@ class Signer(SuitEnvelopeSignerBase):
         digest = cbor2.loads(auth_block[0])
         return digest
 
+    @staticmethod
+    def _is_signature(auth) -> bool:
+        """Check if an element of the authentication wrapper is a COSE_Sign1 object."""
+        if not isinstance(auth, bytes):
+            return False
+        auth_deserialized = cbor2.loads(auth)
+        return isinstance(auth_deserialized, cbor2.CBORTag) and auth_deserialized.tag == 18
+
     def already_signed_action(self, action: SignatureAlreadyPresentActions):
         """Check if the envelope is already signed - if it is, handle this case."""
         auth_block = cbor2.loads(self.envelope.value[SuitIds.SUIT_AUTHENTICATION_WRAPPER.value])
@@ -105,7 +113,7 @@ class Signer(SuitEnvelopeSignerBase):
                 if action == SignatureAlreadyPresentActions.ERROR:
                     raise SignerError("The envelope has already been signed and already-signed-action is set to error.")
                 elif action == SignatureAlreadyPresentActions.REMOVE_OLD:
-                    auth_block.remove(auth)
+                    auth_block = [a for a in auth_block if not self._is_signature(a)]
                     self.envelope.value[SuitIds.SUIT_AUTHENTICATION_WRAPPER.value] = cbor2.dumps(auth_block)
                 elif action == SignatureAlreadyPresentActions.SKIP:
                     self._skip_signing = True
